@@ -1,4 +1,5 @@
 import DFV.Lemmas.C04
+import DFV.Lemmas.C04Spec
 /-!
 # C04 — derivatives are exact on low-degree polynomials, linear, and blind across gaps
 
@@ -427,5 +428,309 @@ theorem restrict_off_open (order : Nat) (h : Rat) (cells : List (Rat × Bool)) :
   have : (cells.map fun c => (c.1, true)) = (cells.map (·.1)).map (·, true) := by simp
   rw [this, all_valid_one_run]
 
+
+/-! ## Refinement: the accumulator walk computes the index-level spec -/
+
+/-- **Refinement theorem.**  At every position of every open line — every length, every one of
+the `2^L` masks, both orders, any step — the code-shaped pass (`_split_diff_combine`: walk the
+line, collect the current run, flush it through `_1d_diff` at an invalid cell or at the end)
+returns `diffSpec`: 0 at an invalid cell, otherwise the stencil of the cell's own maximal run of
+valid cells (`runBefore` cells before it, `runFrom` cells from it on) at its position in that run. -/
+theorem diffLine_refines_spec (o : Nat) (h : Rat) (cells : List (Rat × Bool)) (i : Nat) (hi : i < cells.length) :
+    (diffLine o h cells).getD i 0 = diffSpec o h cells.length (valOf cells) (okOf cells) i :=
+  diffLine_getD_spec o h cells i hi
+
+/-- … and in a periodic direction the same spec applied to the line padded by one wrapped cell on
+each side, read at position `j + 1` (that is all the periodic code path does) -/
+theorem diffRing_refines_spec (o : Nat) (h : Rat) (cells : List (Rat × Bool)) (j : Nat) (hj : j < cells.length) :
+    (diffRing o h cells).getD j 0
+      = diffSpec o h (cells.length + 2) (valOf (wrap1 cells)) (okOf (wrap1 cells)) (j + 1) := by
+  have hne : cells ≠ [] := by intro e; subst e; simp at hj
+  rw [diffRing_getD o h cells j hj, diffLine_getD_spec o h (wrap1 cells) (j + 1) (by rw [wrap1_length _ hne]; omega),
+    wrap1_length _ hne]
+
+/-- an invalid cell yields zero (open line; every order) -/
+theorem invalid_cell_zero (o : Nat) (h : Rat) (cells : List (Rat × Bool)) (i : Nat) (hi : i < cells.length)
+    (hv : okOf cells i = false) : (diffLine o h cells).getD i 0 = 0 := by
+  rw [diffLine_getD_spec o h cells i hi]
+  unfold diffSpec
+  rw [hv]; rfl
+
+/-- an invalid cell yields zero in a periodic direction too -/
+theorem invalid_cell_zero_ring (o : Nat) (h : Rat) (cells : List (Rat × Bool)) (j : Nat) (hj : j < cells.length)
+    (hv : okOf cells j = false) : (diffRing o h cells).getD j 0 = 0 := by
+  rw [diffRing_refines_spec o h cells j hj]
+  unfold diffSpec
+  rw [okOf_wrap1_succ cells j hj, hv]; rfl
+
+/-- a cell whose maximal run is not longer than the derivative order yields zero -/
+theorem short_run_zero_at (o : Nat) (ho : o = 1 ∨ o = 2) (h : Rat) (cells : List (Rat × Bool)) (i : Nat)
+    (hi : i < cells.length)
+    (hs : runBefore (okOf cells) i + runFrom (okOf cells) cells.length i ≤ o) :
+    (diffLine o h cells).getD i 0 = 0 := by
+  rw [diffLine_getD_spec o h cells i hi]
+  unfold diffSpec
+  split
+  · unfold dAt d1At d2At
+    rcases ho with rfl | rfl
+    · have : runBefore (okOf cells) i + runFrom (okOf cells) cells.length i < 2 := by omega
+      simp [this]
+    · have : runBefore (okOf cells) i + runFrom (okOf cells) cells.length i < 3 := by omega
+      simp [this]
+  · rfl
+
+/-- **Locality, index form.**  Two lines of the same length and the same validity pattern whose
+values agree on the maximal run of cell `i` have the same derivative at `i` — whatever they hold
+outside that run. -/
+theorem line_locality (o : Nat) (h : Rat) (c1 c2 : List (Rat × Bool)) (i : Nat) (hl : c1.length = c2.length)
+    (hi : i < c1.length) (hv : ∀ j, j < c1.length → okOf c1 j = okOf c2 j)
+    (hx : ∀ j, i - runBefore (okOf c1) i ≤ j → j < i + runFrom (okOf c1) c1.length i → valOf c1 j = valOf c2 j) :
+    (diffLine o h c1).getD i 0 = (diffLine o h c2).getD i 0 := by
+  rw [diffLine_getD_spec o h c1 i hi, diffLine_getD_spec o h c2 i (by omega), ← hl]
+  unfold diffSpec
+  have e1 : runBefore (okOf c1) i = runBefore (okOf c2) i := runBefore_congr _ _ i (fun j hj => hv j (by omega))
+  have e2 : runFrom (okOf c1) c1.length i = runFrom (okOf c2) c1.length i :=
+    runFromAux_congr _ _ _ i (fun j h1 h2 => hv j (by omega))
+  rw [← hv i hi, ← e1, ← e2]
+  split
+  · rename_i hvi
+    have hb := runBefore_le (okOf c1) i
+    have hpos : 0 < runFrom (okOf c1) c1.length i := by
+      unfold runFrom
+      have : c1.length - i = (c1.length - i - 1) + 1 := by omega
+      rw [this]; simp only [runFromAux, hvi, if_true]; omega
+    apply dAt_congr _ _ _ _ _ _ _ (by omega)
+    intro k hk
+    exact hx _ (by omega) (by omega)
+  · rfl
+
+/-! ## Reversal -/
+
+/-- **Reversal of an open line**, every mask: the derivative of the reversed line is the reversed
+derivative, negated for order 1 (this is what a quarter turn does to a grid line, C05/C12). -/
+theorem line_reverse (o : Nat) (h : Rat) (cells : List (Rat × Bool)) :
+    diffLine o h cells.reverse = ((diffLine o h cells).map (revSign o * ·)).reverse :=
+  diffLine_reverse o h cells
+
+/-- **Reversal of a periodic line**, every mask — also for runs that cross the seam. -/
+theorem ring_reverse (o : Nat) (h : Rat) (cells : List (Rat × Bool)) :
+    diffRing o h cells.reverse = ((diffRing o h cells).map (revSign o * ·)).reverse :=
+  diffRing_reverse o h cells
+
+/-- the whole pass is homogeneous: scaling the values scales the derivative (every mask, open or
+periodic, restricted or not) -/
+theorem line_smul (p r : Bool) (o : Nat) (h s : Rat) (cells : List (Rat × Bool)) :
+    diffLine' p r o h (cells.map fun c => (s * c.1, c.2)) = (diffLine' p r o h cells).map (s * ·) :=
+  diffLine'_smul p r o h s cells
+
+/-! ## Masked rings: what the code computes, run by run (known finding D17) -/
+
+/-- **A run strictly inside the ring** (delimited by invalid cells on both sides within the stored
+line) is differentiated on its own, exactly as on an open line: it gets the ring-run value. -/
+theorem ring_inner_run (o : Nat) (h : Rat) (a : List (Rat × Bool)) (y : Rat) (r : List Rat) (z : Rat)
+    (b : List (Rat × Bool)) (k : Nat) (hk : k < r.length) :
+    (diffRing o h (a ++ (y, false) :: (r.map (·, true) ++ (z, false) :: b))).getD (a.length + 1 + k) 0
+      = (diffRun o h r).getD k 0 := by
+  have hne : a ++ (y, false) :: (r.map (·, true) ++ (z, false) :: b) ≠ [] := by simp
+  obtain ⟨f, hf⟩ : ∃ f, (a ++ (y, false) :: (r.map (·, true) ++ (z, false) :: b)).head? = some f := by
+    cases a <;> exact ⟨_, rfl⟩
+  obtain ⟨l, hl⟩ : ∃ l, (a ++ (y, false) :: (r.map (·, true) ++ (z, false) :: b)).getLast? = some l :=
+    ⟨_, List.getLast?_eq_some_getLast hne⟩
+  rw [diffRing_getD _ _ _ _ (by simp; omega), wrap1_of _ f l hf hl]
+  have e : l :: (a ++ (y, false) :: (r.map (·, true) ++ (z, false) :: b)) ++ [f]
+      = (l :: a) ++ (y, false) :: (r.map (·, true) ++ (z, false) :: (b ++ [f])) := by simp
+  rw [e, sdc_segment]
+  have l1 : (diffLine o h ((l :: a) ++ [(y, false)])).length = a.length + 2 := by
+    rw [diffLine_length]; simp
+  rw [List.append_assoc, List.getD_eq_getElem?_getD, List.getElem?_append_right (by omega), l1,
+    show a.length + 1 + k + 1 - (a.length + 2) = k by omega,
+    List.getElem?_append_left (by rw [diffRun_length]; exact hk), ← List.getD_eq_getElem?_getD]
+
+/-- **The run at the start of the stored line, when the last cell is valid too** (the ring run
+crosses the seam): the code differentiates `last cell ++ head run` as if it were a whole run — the
+head run sees exactly ONE cell from the other side of the seam, not the rest of its ring run.
+This is known finding D17. -/
+theorem ring_head_run_seam (o : Nat) (h : Rat) (x0 : Rat) (p : List Rat) (y : Rat) (rest : List (Rat × Bool)) (xl : Rat)
+    (hl : (((x0 :: p).map (·, true)) ++ (y, false) :: rest).getLast? = some (xl, true)) (k : Nat) (hk : k < p.length + 1) :
+    (diffRing o h (((x0 :: p).map (·, true)) ++ (y, false) :: rest)).getD k 0
+      = (diffRun o h (xl :: x0 :: p)).getD (k + 1) 0 := by
+  rw [diffRing_getD _ _ _ _ (by simp; omega), wrap1_of _ (x0, true) (xl, true) rfl hl]
+  have e : (xl, true) :: (((x0 :: p).map (·, true)) ++ (y, false) :: rest) ++ [(x0, true)]
+      = (xl :: x0 :: p).map (·, true) ++ (y, false) :: (rest ++ [(x0, true)]) := by simp
+  rw [e, sdc_segment_head, List.getD_eq_getElem?_getD,
+    List.getElem?_append_left (by rw [diffRun_length]; simp; omega), ← List.getD_eq_getElem?_getD]
+
+/-- **The run at the end of the stored line, when the first cell is valid too**: likewise it is
+differentiated together with exactly one cell (the first) from beyond the seam. -/
+theorem ring_tail_run_seam (o : Nat) (h : Rat) (a : List (Rat × Bool)) (y : Rat) (q : List Rat) (x0 : Rat)
+    (hf : (a ++ (y, false) :: q.map (·, true)).head? = some (x0, true)) (k : Nat) (hk : k < q.length) :
+    (diffRing o h (a ++ (y, false) :: q.map (·, true))).getD (a.length + 1 + k) 0
+      = (diffRun o h (q ++ [x0])).getD k 0 := by
+  have hne : a ++ (y, false) :: q.map (·, true) ≠ [] := by simp
+  obtain ⟨l, hl⟩ : ∃ l, (a ++ (y, false) :: q.map (·, true)).getLast? = some l :=
+    ⟨_, List.getLast?_eq_some_getLast hne⟩
+  rw [diffRing_getD _ _ _ _ (by simp; omega), wrap1_of _ (x0, true) l hf hl]
+  have e : l :: (a ++ (y, false) :: q.map (·, true)) ++ [(x0, true)]
+      = (l :: a) ++ (y, false) :: (q ++ [x0]).map (·, true) := by simp
+  rw [e, sdc_segment_tail]
+  have l1 : (diffLine o h ((l :: a) ++ [(y, false)])).length = a.length + 2 := by
+    rw [diffLine_length]; simp
+  rw [List.getD_eq_getElem?_getD, List.getElem?_append_right (by omega), l1,
+    show a.length + 1 + k + 1 - (a.length + 2) = k by omega, ← List.getD_eq_getElem?_getD]
+
+/-- **Shift-equivariance for masked rings whenever no run crosses the seam**: storing the ring
+rotated so that another invalid cell comes first rotates the derivative by the same amount. -/
+theorem ring_shift_off_seam (o : Nat) (h : Rat) (y z : Rat) (A B : List (Rat × Bool)) :
+    diffRing o h ((z, false) :: B ++ (y, false) :: A)
+      = (diffRing o h ((y, false) :: A ++ (z, false) :: B)).drop (A.length + 1)
+        ++ (diffRing o h ((y, false) :: A ++ (z, false) :: B)).take (A.length + 1) := by
+  have e1 : (y, false) :: A ++ (z, false) :: B = (y, false) :: (A ++ (z, false) :: B) := by simp
+  have e2 : (z, false) :: B ++ (y, false) :: A = (z, false) :: (B ++ (y, false) :: A) := by simp
+  rw [e1, e2, ring_open_if_first_invalid, ring_open_if_first_invalid]
+  unfold diffLine sdc
+  simp only [sdcGo, List.reverse_nil, diffRun_nil, List.nil_append]
+  rw [sdcGo_split_invalid, sdcGo_split_invalid]
+  have lA : (sdcGo (diffRun o h) A []).length = A.length := by
+    rw [sdcGo_length _ (diffRun_length o h)]; simp
+  have : (0 :: (sdcGo (diffRun o h) A [] ++ 0 :: sdcGo (diffRun o h) B []))
+      = (0 :: sdcGo (diffRun o h) A []) ++ (0 :: sdcGo (diffRun o h) B []) := by simp
+  rw [this, List.drop_left' (by simp [lA]), List.take_left' (by simp [lA])]
+  simp
+
+/-- … and the one-cell rotation that moves an invalid last cell to the front -/
+theorem ring_shift_off_seam_one (o : Nat) (h : Rat) (y : Rat) (A : List (Rat × Bool)) :
+    diffRing o h ((y, false) :: A) = 0 :: (diffRing o h (A ++ [(y, false)])).take A.length := by
+  rw [ring_open_if_first_invalid, ring_open_if_last_invalid]
+  unfold diffLine sdc
+  simp only [sdcGo, List.reverse_nil, diffRun_nil, List.nil_append]
+  rw [sdcGo_append_invalid _ (diffRun_nil o h)]
+  have lA : (sdcGo (diffRun o h) A []).length = A.length := by
+    rw [sdcGo_length _ (diffRun_length o h)]; simp
+  rw [List.take_left' lA]
+
+/-- **Known finding D17 on the model: `ring_shift` is FALSE for masked rings.**  Ring of 5 cells,
+mask `[1,1,1,0,1]`, values `[7,1,4,9,2]`, `h = 1/2`, first derivative.  The ring run of cell 4 is
+`2,7,1,4` (cells 4,0,1,2) and its one-sided stencil gives 21 at cell 4 — which is also what the
+code returns when the SAME ring is stored rolled by 4 (`[2,7,1,4,9]`, mask `[1,1,1,1,0]`, cell 4
+at position 0).  Stored as given, the run crosses the seam, cell 4 sees only `2,7` and gets 10. -/
+theorem ring_shift_masked_counterexample :
+    (diffRing 1 (1/2) [(7, true), (1, true), (4, true), (9, false), (2, true)]).getD 4 0 = 10 ∧
+    (diffRun 1 (1/2) [2, 7, 1, 4]).getD 0 0 = 21 ∧
+    (diffRing 1 (1/2) [(2, true), (7, true), (1, true), (4, true), (9, false)]).getD 0 0 = 21 := by
+  refine ⟨?_, ?_, ?_⟩
+  · simp [diffRing, wrap1, diffLine, sdc, sdcGo, diffRun, tab, dAt, d1At, List.range, List.range.loop]
+    norm_num
+  · simp [diffRun, tab, dAt, d1At, List.range, List.range.loop]
+    norm_num
+  · simp [diffRing, wrap1, diffLine, sdc, sdcGo, diffRun, tab, dAt, d1At, List.range, List.range.loop]
+    norm_num
+
+/-- hence shift-equivariance cannot be extended from fully valid rings (`ring_shift`) to all masks -/
+theorem ring_shift_not_for_all_masks :
+    ¬ ∀ (cells : List (Rat × Bool)) (s j : Nat), j < cells.length →
+      (diffRing 1 (1/2) (tab cells.length fun k => cells.getD ((k + s) % cells.length) (0, false))).getD j 0
+        = (diffRing 1 (1/2) cells).getD ((j + s) % cells.length) 0 := by
+  intro hall
+  have h1 := hall [(7, true), (1, true), (4, true), (9, false), (2, true)] 4 0 (by decide)
+  have h2 := ring_shift_masked_counterexample
+  have e : (tab [((7 : Rat), true), (1, true), (4, true), (9, false), (2, true)].length fun k =>
+      [((7 : Rat), true), (1, true), (4, true), (9, false), (2, true)].getD
+        ((k + 4) % [((7 : Rat), true), (1, true), (4, true), (9, false), (2, true)].length) (0, false))
+      = [(2, true), (7, true), (1, true), (4, true), (9, false)] := by
+    simp [tab, List.range, List.range.loop]
+  rw [e] at h1
+  simp only [List.length_cons, List.length_nil, Nat.zero_add] at h1
+  rw [h2.2.2, show (0 + 4) % (0 + 1 + 1 + 1 + 1 + 1) = 4 by rfl, h2.1] at h1
+  norm_num at h1
+
+/-! ## n-d field level: every axis, every component, every cell -/
+
+/-- **Field-level refinement.**  For every axis `ax` of an n-d mesh that is not periodic, every
+component `c` and every cell `i`, `Field.diff(ax, order)` stores the index-level spec of the grid
+line through `i` along `ax`: 0 if the cell is invalid, otherwise the stencil of the cell's own
+maximal run of valid cells along that line — it reads nothing else of the field. -/
+theorem diff_refines_spec (f g : Fld) (ax order : Nat) (h : diff f ax order true = .ok g)
+    (hopen : periodicAx f ax = false) (i : List Nat) (c : Nat) (hc : c < f.nvdim) (hi : i.getD ax 0 < f.mesh.nAt ax) :
+    (g.data.get i).getD c 0
+      = diffSpec order (f.mesh.cellAt ax) (f.mesh.nAt ax) (fun j => (f.data.line ax i j).getD c 0)
+          (fun j => f.valid.line ax i j) (i.getD ax 0) := by
+  rw [diff_cell f g ax order true h i c hc]
+  unfold periodicAx at hopen
+  rw [hopen]
+  unfold diffLine'
+  simp only [Bool.false_eq_true, if_false, if_true]
+  rw [diffLine_getD_spec _ _ _ _ (by rw [lineCells_length]; exact hi), lineCells_length]
+  exact diffSpec_congr _ _ _ _ _ _ _ _ hi (fun j hj => valOf_lineCells f ax i c j hj) (fun j hj => okOf_lineCells f ax i c j hj)
+
+/-- **Invalid cells yield zero** — every axis (open or periodic), both orders, every component. -/
+theorem diff_invalid_zero (f g : Fld) (ax order : Nat) (h : diff f ax order true = .ok g)
+    (i : List Nat) (c : Nat) (hc : c < f.nvdim) (hi : i.getD ax 0 < f.mesh.nAt ax) (hv : f.valid.get i = false) :
+    (g.data.get i).getD c 0 = 0 := by
+  rw [diff_cell f g ax order true h i c hc]
+  have hok : okOf (lineCells f ax i c) (i.getD ax 0) = false := by
+    rw [okOf_lineCells f ax i c _ hi]
+    unfold NDA.line
+    rw [setAt_getD_self]; exact hv
+  unfold diffLine'
+  simp only [if_true]
+  split
+  · exact invalid_cell_zero_ring _ _ _ _ (by rw [lineCells_length]; exact hi) hok
+  · exact invalid_cell_zero _ _ _ _ (by rw [lineCells_length]; exact hi) hok
+
+/-- **Runs not longer than the order yield zero** at field level (open axis): a cell whose
+maximal run of valid cells along `ax` has at most `order` cells gets 0. -/
+theorem diff_short_run_zero (f g : Fld) (ax order : Nat) (h : diff f ax order true = .ok g)
+    (hopen : periodicAx f ax = false) (i : List Nat) (c : Nat) (hc : c < f.nvdim) (hi : i.getD ax 0 < f.mesh.nAt ax)
+    (hs : runBefore (fun j => f.valid.line ax i j) (i.getD ax 0)
+        + runFrom (fun j => f.valid.line ax i j) (f.mesh.nAt ax) (i.getD ax 0) ≤ order) :
+    (g.data.get i).getD c 0 = 0 := by
+  have ho : order = 1 ∨ order = 2 := by
+    unfold diff at h
+    split at h
+    · cases h
+    · omega
+  rw [diff_refines_spec f g ax order h hopen i c hc hi]
+  unfold diffSpec
+  split
+  · exact dAt_short order ho _ _ hs _ _
+  · rfl
+
+/-- **n-d locality.**  Take two fields on the same mesh, an open axis `ax`, a cell `i` and a
+component `c`.  If the two fields have the same validity along the grid line through `i` and the
+same values of component `c` on the cells of `i`'s own maximal run of valid cells along that
+line, their derivatives at `(i, c)` coincide — whatever the fields hold anywhere else: outside the
+run on the same line, on every other grid line, in every other component. -/
+theorem diff_locality_nd (f1 f2 g1 g2 : Fld) (ax order : Nat)
+    (h1 : diff f1 ax order true = .ok g1) (h2 : diff f2 ax order true = .ok g2)
+    (hmesh : f1.mesh = f2.mesh) (hopen : periodicAx f1 ax = false)
+    (i : List Nat) (c : Nat) (hc1 : c < f1.nvdim) (hc2 : c < f2.nvdim) (hi : i.getD ax 0 < f1.mesh.nAt ax)
+    (hv : ∀ j, j < f1.mesh.nAt ax → f1.valid.line ax i j = f2.valid.line ax i j)
+    (hx : ∀ j, i.getD ax 0 - runBefore (fun j => f1.valid.line ax i j) (i.getD ax 0) ≤ j →
+        j < i.getD ax 0 + runFrom (fun j => f1.valid.line ax i j) (f1.mesh.nAt ax) (i.getD ax 0) →
+        (f1.data.line ax i j).getD c 0 = (f2.data.line ax i j).getD c 0) :
+    (g1.data.get i).getD c 0 = (g2.data.get i).getD c 0 := by
+  have hopen2 : periodicAx f2 ax = false := by unfold periodicAx at hopen ⊢; rw [← hmesh]; exact hopen
+  rw [diff_refines_spec f1 g1 ax order h1 hopen i c hc1 hi,
+    diff_refines_spec f2 g2 ax order h2 hopen2 i c hc2 (by rw [← hmesh]; exact hi), ← hmesh]
+  unfold diffSpec
+  have e1 : runBefore (fun j => f1.valid.line ax i j) (i.getD ax 0) = runBefore (fun j => f2.valid.line ax i j) (i.getD ax 0) :=
+    runBefore_congr _ _ _ (fun j hj => hv j (by omega))
+  have e2 : runFrom (fun j => f1.valid.line ax i j) (f1.mesh.nAt ax) (i.getD ax 0)
+      = runFrom (fun j => f2.valid.line ax i j) (f1.mesh.nAt ax) (i.getD ax 0) :=
+    runFromAux_congr _ _ _ _ (fun j h1 h2 => hv j (by omega))
+  rw [← e1, ← e2]
+  beta_reduce
+  rw [← hv _ hi]
+  split
+  · rename_i hvi
+    have hb := runBefore_le (fun j => f1.valid.line ax i j) (i.getD ax 0)
+    have hpos : 0 < runFrom (fun j => f1.valid.line ax i j) (f1.mesh.nAt ax) (i.getD ax 0) := by
+      unfold runFrom
+      have : f1.mesh.nAt ax - i.getD ax 0 = (f1.mesh.nAt ax - i.getD ax 0 - 1) + 1 := by omega
+      rw [this]; simp only [runFromAux, hvi, if_true]; omega
+    apply dAt_congr _ _ _ _ _ _ _ (by omega)
+    intro k hk
+    exact hx _ (by omega) (by omega)
+  · rfl
 
 end DFV.C04
